@@ -305,5 +305,249 @@ example : allDelivered ({} : Sched Nat)
     [⟨1000, [1, 2, 3], fun n => if n = 2 then .drop else if n = 3 then .deliver 1000 else .pass⟩, ⟨1000, [], fun _ => .pass⟩]
     = [1, 3] := by decide
 
+/-! ### guards: the very next packet, and forever after -/
+
+/-- A guard drop takes effect for the very next packet, in every chain state (no well-formedness
+    needed): the verdict is the first non-`Pass` verdict of the remaining rules in their old
+    order, and the rules consulted are exactly those the chain without the dropped rule would
+    consult — as if the dropped rule had never been there. -/
+theorem guard_next_packet (c : Chain P) (id : Nat) (p : P) :
+    (c.uninstall id).evaluate p = firstNonPass ((c.rules.filter (fun r => r.id != id)).map (·.f p)) ∧
+    (Chain.evalLog (c.uninstall id).rules p).1 = Chain.consulted (c.rules.filter (fun r => r.id != id)) p :=
+  first_match (c.uninstall id) p
+
+/-- rule 1 drops everything; once its guard is gone the very next packet gets rule 2's verdict
+    and only rule 2 is consulted -/
+example : let c := applyOps ({} : Chain Nat) [.install (fun _ => .drop), .install (fun _ => .deliver 7)]
+    c.evaluate 0 = .drop ∧ (c.uninstall 1).evaluate 0 = .deliver 7 ∧
+    (Chain.evalLog (c.uninstall 1).rules 0).1 = [(2, .deliver 7)] := by decide
+
+example (c : Chain Nat) : ((c.uninstall 1).evaluate 0 =
+    firstNonPass ((c.rules.filter (fun r => r.id != 1)).map (·.f 0))) := (guard_next_packet c 1 0).1
+
+/-- The id handed out by `install` is always below the chain's counter afterwards. -/
+theorem install_id_lt (c : Chain P) (f : P → Verdict) : (c.install f).2 < (c.install f).1.nextId :=
+  Chain.install_id_lt_nextId c f
+
+example : (Chain.install ({} : Chain Nat) (fun _ => .pass)).2 = 1 ∧
+    (Chain.install ({} : Chain Nat) (fun _ => .pass)).1.nextId = 2 := by decide
+
+/-- Invariant carried through later operations: the id is absent and already handed out. -/
+theorem absent_applyOps (id : Nat) (ops : List (ChainOp P)) :
+    ∀ c : Chain P, (∀ r ∈ c.rules, r.id ≠ id) → id < c.nextId →
+      (∀ r ∈ (applyOps c ops).rules, r.id ≠ id) ∧ id < (applyOps c ops).nextId := by
+  induction ops with
+  | nil => intro c h1 h2; exact ⟨h1, h2⟩
+  | cons op ops ih =>
+    intro c h1 h2
+    simp only [applyOps, List.foldl_cons]
+    cases op with
+    | install f =>
+      apply ih
+      · intro r hr
+        simp only [applyOp, Chain.install, List.mem_append, List.mem_singleton] at hr
+        rcases hr with hr | rfl
+        · exact h1 r hr
+        · show c.nextId ≠ id
+          omega
+      · show id < c.nextId + 1
+        omega
+    | uninstall id2 =>
+      apply ih
+      · intro r hr
+        simp only [applyOp, Chain.uninstall, List.mem_filter] at hr
+        exact h1 r hr.1
+      · exact h2
+
+/-- Once a guard is dropped its rule never comes back: for an id that has already been handed
+    out (`id < c.nextId`; ids returned by `install` always are, see `install_id_lt`), after
+    `uninstall id` no sequence of further installs and uninstalls ever produces a rule with that
+    id — new rules get the counter value, which is above it and only grows.  (Only `id <
+    c.nextId` is needed; `guard_forever_installed` is the form for a well-formed chain and the
+    id of one of its rules.) -/
+theorem guard_forever (c : Chain P) (id : Nat) (hid : id < c.nextId) (ops : List (ChainOp P)) :
+    ∀ r ∈ (applyOps (c.uninstall id) ops).rules, r.id ≠ id := by
+  refine (absent_applyOps id ops (c.uninstall id) ?_ hid).1
+  intro r hr
+  simp only [Chain.uninstall, List.mem_filter] at hr
+  simpa using hr.2
+
+/-- ... hence no later evaluation of any packet ever consults (logs) the dropped id. -/
+theorem guard_forever_eval (c : Chain P) (id : Nat) (hid : id < c.nextId) (ops : List (ChainOp P)) (p : P) :
+    ∀ e ∈ (Chain.evalLog (applyOps (c.uninstall id) ops).rules p).1, e.1 ≠ id := by
+  intro e he
+  obtain ⟨r, hr, hre⟩ := Chain.evalLog_ids _ p e he
+  rw [← hre]
+  exact guard_forever c id hid ops r hr
+
+/-- The same for a well-formed chain and the id of a rule that is installed in it (the situation
+    of a live `RuleGuard`): after the drop, whatever is installed or removed later, no rule has
+    that id and no evaluation logs it. -/
+theorem guard_forever_installed (c : Chain P) (h : Chain.WF c) (id : Nat) (hex : ∃ r ∈ c.rules, r.id = id)
+    (ops : List (ChainOp P)) :
+    (∀ r ∈ (applyOps (c.uninstall id) ops).rules, r.id ≠ id) ∧
+    (∀ p, ∀ e ∈ (Chain.evalLog (applyOps (c.uninstall id) ops).rules p).1, e.1 ≠ id) := by
+  have hid : id < c.nextId := by
+    obtain ⟨r, hr, rfl⟩ := hex
+    exact h.2 r hr
+  exact ⟨guard_forever c id hid ops, fun p => guard_forever_eval c id hid ops p⟩
+
+/-- rule 1 dropped, two more installed, one removed: ids are 2 and 4, never 1 again -/
+example : ((applyOps ((applyOps ({} : Chain Nat) [.install (fun _ => .drop), .install (fun _ => .pass)]).uninstall 1)
+    [.install (fun _ => .pass), .uninstall 3, .install (fun _ => .drop)]).rules.map (·.id)) = [2, 4] := by decide
+
+example : ∀ e ∈ (Chain.evalLog (applyOps ((applyOps ({} : Chain Nat) [.install (fun _ => .drop)]).uninstall 1)
+    [.install (fun _ => .pass), .install (fun _ => .drop)]).rules 0).1, e.1 ≠ 1 :=
+  guard_forever_eval _ 1 (by decide) _ 0
+
+example : ∀ r ∈ (applyOps ((applyOps ({} : Chain Nat) [.install (fun _ => .drop)]).uninstall 1)
+    [.install (fun _ => .pass)]).rules, r.id ≠ 1 :=
+  (guard_forever_installed _ (chain_wf _) 1 ⟨⟨1, fun _ => .drop⟩, by simp [applyOps, applyOp, Chain.install], rfl⟩ _).1
+
+/-- the side condition is needed: an id not handed out yet is handed out by the next install -/
+example : ¬ ∀ r ∈ (applyOps (({} : Chain Nat).uninstall 1) [.install (fun _ => .pass)]).rules, r.id ≠ 1 := by
+  simp [applyOps, applyOp, Chain.install, Chain.uninstall]
+
+/-! ### run-level delivery order, from any pending queue -/
+
+/-- Everything that comes due over a run of ticks, in hand-over order (queue entries, so the
+    deadline and issue number are visible). -/
+def allDue : Sched P → List (TickIn P) → List (Scheduled P)
+  | _, [] => []
+  | s, t :: ts => (s.tick t.dt t.egress t.verdict).2.1 ++ allDue (s.tick t.dt t.egress t.verdict).1 ts
+
+theorem tick_now (s : Sched P) (dt : Nat) (eg : List P) (v : P → Verdict) :
+    (s.tick dt eg v).1.now = s.now + dt := by
+  simp only [Sched.tick]; rw [Sched.routeAll_now]
+
+/-- Whatever a run hands over from a state satisfying the invariant has its deadline after the
+    state's clock (nothing overdue is ever held back). -/
+theorem allDue_future (s : Sched P) (h : Sched.Inv s) (ticks : List (TickIn P)) :
+    ∀ e ∈ allDue s ticks, s.now < e.deliverAt := by
+  induction ticks generalizing s with
+  | nil => simp [allDue]
+  | cons t ts ih =>
+    intro e he
+    simp only [allDue, List.mem_append] at he
+    rcases he with he | he
+    · exact ((deadline s h t.dt t.egress t.verdict).2.1 e he).1
+    · have h1 := ih (s.tick t.dt t.egress t.verdict).1 (inv_tick s h t.dt t.egress t.verdict) e he
+      have h2 := tick_now s t.dt t.egress t.verdict
+      omega
+
+/-- Over a whole run of ticks, starting from ANY pending queue satisfying the invariant (sorted,
+    seqs below the counter, nothing overdue), packets are handed over in strictly increasing
+    `(deadline, issue number)` order: within one tick the due list is sorted, and everything
+    handed over in a later tick has a deadline after the earlier tick's clock, while everything
+    due in the earlier tick has a deadline at or before it. -/
+theorem delivery_sorted (s : Sched P) (h : Sched.Inv s) (ticks : List (TickIn P)) :
+    Sorted (allDue s ticks) := by
+  induction ticks generalizing s with
+  | nil => simp [allDue, Sorted]
+  | cons t ts ih =>
+    have hinv := inv_tick s h t.dt t.egress t.verdict
+    simp only [allDue]
+    unfold Sorted
+    rw [List.pairwise_append]
+    refine ⟨(tie_order s h t.dt t.egress t.verdict).1, ih _ hinv, ?_⟩
+    intro a ha b hb
+    have h1 := ((deadline s h t.dt t.egress t.verdict).2.1 a ha).2.1
+    have h2 := allDue_future _ hinv ts b hb
+    left
+    omega
+
+/-- No overtaking: if `a` is handed over before `b` anywhere in a run then `a` is strictly
+    smaller in `(deadline, issue number)` — a packet with a later deadline, or the same deadline
+    and a later issue number, is never delivered first. -/
+theorem no_overtake (s : Sched P) (h : Sched.Inv s) (ticks : List (TickIn P))
+    (l1 l2 : List (Scheduled P)) (a b : Scheduled P)
+    (heq : allDue s ticks = l1 ++ a :: l2) (hb : b ∈ l2) : a.lt b := by
+  have hs := delivery_sorted s h ticks
+  unfold Sorted at hs
+  rw [heq, List.pairwise_append, List.pairwise_cons] at hs
+  exact hs.2.1.1 b hb
+
+/-- three packets with delays 3000 / 1000 / 1000 issued in one tick leave over two later ticks in
+    deadline order, ties in issue order -/
+example : (allDue ({} : Sched Nat)
+    [⟨1000, [1, 2, 3], fun n => if n = 1 then .deliver 3000 else .deliver 1000⟩, ⟨1000, [4], fun _ => .deliver 500⟩,
+     ⟨1000, [], fun _ => .pass⟩, ⟨1000, [], fun _ => .pass⟩]).map (fun e => (e.deliverAt, e.seq, e.pkt))
+    = [(2000, 1, 2), (2000, 2, 3), (2500, 3, 4), (4000, 0, 1)] := by decide
+
+/-- from a non-empty initial queue -/
+example : Sorted (allDue ({ now := 10, pending := [⟨20, 0, 5⟩, ⟨20, 1, 6⟩, ⟨70, 2, 7⟩], nextSeq := 3 } : Sched Nat)
+    [⟨15, [8], fun _ => .deliver 20⟩, ⟨100, [], fun _ => .pass⟩]) :=
+  delivery_sorted _ ⟨by unfold Sorted; decide, by decide, by decide⟩ _
+
+example : (allDue ({ now := 10, pending := [⟨20, 0, 5⟩, ⟨20, 1, 6⟩, ⟨70, 2, 7⟩], nextSeq := 3 } : Sched Nat)
+    [⟨15, [8], fun _ => .deliver 20⟩, ⟨100, [], fun _ => .pass⟩]).map (·.pkt) = [5, 6, 8, 7] := by decide
+
+example (a b : Scheduled Nat) (l1 l2 : List (Scheduled Nat)) (ticks : List (TickIn Nat))
+    (heq : allDue ({} : Sched Nat) ticks = l1 ++ a :: l2) (hb : b ∈ l2) : a.lt b :=
+  no_overtake _ Sched.inv_empty ticks l1 l2 a b heq hb
+
+/-- Issue order is `(deadline, issue number)` order: if in one tick `p1` is egressed before `p2`
+    (at any positions `pre.length` and `pre.length + 1 + mid.length`), both get `Deliver` with
+    non-zero delays `d1 ≤ d2`, then both are queued with deadlines `now + dt + d`, `p1` gets the
+    smaller issue number, and `p1`'s entry is strictly before `p2`'s in queue order.  Holds from
+    every scheduler state (no invariant needed). -/
+theorem issue_order (s : Sched P) (dt : Nat) (v : P → Verdict) (pre mid post : List P) (p1 p2 : P)
+    (d1 d2 : Nat) (hv1 : v p1 = .deliver d1) (hv2 : v p2 = .deliver d2) (hd1 : d1 ≠ 0) (hd2 : d2 ≠ 0)
+    (hle : d1 ≤ d2) :
+    ∃ e1 e2 : Scheduled P,
+      e1 ∈ (s.tick dt (pre ++ p1 :: (mid ++ p2 :: post)) v).1.pending ∧
+      e2 ∈ (s.tick dt (pre ++ p1 :: (mid ++ p2 :: post)) v).1.pending ∧
+      e1.pkt = p1 ∧ e2.pkt = p2 ∧
+      e1.deliverAt = s.now + dt + d1 ∧ e2.deliverAt = s.now + dt + d2 ∧
+      e1.seq < e2.seq ∧ e1.lt e2 := by
+  simp only [Sched.tick]
+  generalize hs2 : ({ now := s.now + dt, pending := Sched.rest { now := s.now + dt, pending := s.pending, nextSeq := s.nextSeq }, nextSeq := s.nextSeq } : Sched P) = s2
+  have hnow : s2.now = s.now + dt := by rw [← hs2]
+  have hm1 := Sched.routeAll_at v s2 pre (mid ++ p2 :: post) p1 d1 hv1 hd1
+  have hm2 := Sched.routeAll_at v s2 (pre ++ p1 :: mid) post p2 d2 hv2 hd2
+  have hlt := Sched.routeAll_seq_lt v s2 pre mid p1 d1 hv1 hd1
+  have hl : (pre ++ p1 :: mid) ++ p2 :: post = pre ++ p1 :: (mid ++ p2 :: post) := by simp
+  rw [hl] at hm2
+  rw [hnow] at hm1 hm2
+  refine ⟨_, _, hm1, hm2, rfl, rfl, rfl, rfl, hlt, ?_⟩
+  unfold Scheduled.lt
+  show s.now + dt + d1 < s.now + dt + d2 ∨ (s.now + dt + d1 = s.now + dt + d2 ∧ _)
+  by_cases heq : d1 = d2
+  · right; exact ⟨by omega, hlt⟩
+  · left; omega
+
+/-- ... and so is delivery order: in every continuation of the run, `p2`'s entry is never handed
+    over before `p1`'s. -/
+theorem issue_order_delivered (s : Sched P) (h : Sched.Inv s) (dt : Nat) (v : P → Verdict)
+    (pre mid post : List P) (p1 p2 : P) (d1 d2 : Nat) (hv1 : v p1 = .deliver d1) (hv2 : v p2 = .deliver d2)
+    (hd1 : d1 ≠ 0) (hd2 : d2 ≠ 0) (hle : d1 ≤ d2) :
+    ∃ e1 e2 : Scheduled P,
+      e1 ∈ (s.tick dt (pre ++ p1 :: (mid ++ p2 :: post)) v).1.pending ∧
+      e2 ∈ (s.tick dt (pre ++ p1 :: (mid ++ p2 :: post)) v).1.pending ∧
+      e1.pkt = p1 ∧ e2.pkt = p2 ∧
+      e1.deliverAt = s.now + dt + d1 ∧ e2.deliverAt = s.now + dt + d2 ∧
+      ∀ (ticks : List (TickIn P)) (l1 l2 : List (Scheduled P)),
+        allDue (s.tick dt (pre ++ p1 :: (mid ++ p2 :: post)) v).1 ticks = l1 ++ e2 :: l2 → e1 ∉ l2 := by
+  obtain ⟨e1, e2, m1, m2, k1, k2, a1, a2, _, hlt⟩ := issue_order s dt v pre mid post p1 p2 d1 d2 hv1 hv2 hd1 hd2 hle
+  refine ⟨e1, e2, m1, m2, k1, k2, a1, a2, ?_⟩
+  intro ticks l1 l2 heq hmem
+  have := no_overtake _ (inv_tick s h dt _ v) ticks l1 l2 e2 e1 heq hmem
+  unfold Scheduled.lt at this hlt
+  omega
+
+/-- packets 1 and 3 get the same delay, 2 a shorter one: queue order is 2, 1, 3 -/
+example : (({} : Sched Nat).tick 1000 [1, 2, 3] (fun n => if n = 2 then .deliver 500 else .deliver 900)).1.pending.map
+    (fun e => (e.deliverAt, e.seq, e.pkt)) = [(1500, 1, 2), (1900, 0, 1), (1900, 2, 3)] := by decide
+
+example : ∃ e1 e2 : Scheduled Nat,
+    e1 ∈ (({} : Sched Nat).tick 1000 ([] ++ 1 :: ([2] ++ 3 :: [])) (fun _ => .deliver 900)).1.pending ∧
+    e2 ∈ (({} : Sched Nat).tick 1000 ([] ++ 1 :: ([2] ++ 3 :: [])) (fun _ => .deliver 900)).1.pending ∧
+    e1.pkt = 1 ∧ e2.pkt = 3 ∧ e1.deliverAt = 0 + 1000 + 900 ∧ e2.deliverAt = 0 + 1000 + 900 ∧
+    e1.seq < e2.seq ∧ e1.lt e2 :=
+  issue_order {} 1000 (fun _ => .deliver 900) [] [2] [] 1 3 900 900 rfl rfl (by decide) (by decide) (by decide)
+
+example := issue_order_delivered ({} : Sched Nat) Sched.inv_empty 1000 (fun _ => .deliver 900) [] [2] [] 1 3 900 900
+  rfl rfl (by decide) (by decide) (by decide)
+
 end C19
 end TV
